@@ -79,6 +79,10 @@ def make_case(params):
 	Qs[-1] = make_pwm(nr, r, 1, grid)
 	Ts = [make_pwm(nr, r, r.randint(1, 25), grid)
 		for _ in range(params["n_t"])]
+	if params.get("dup_targets") and len(Ts) >= 3:
+		# identical targets: exact p-value ties inside every row
+		Ts[-1] = Ts[0].copy()
+		Ts[len(Ts) // 2] = Ts[0].copy()
 	return Qs, Ts
 
 
@@ -236,6 +240,15 @@ def run_case(cls, params, rec):
 			order.extend(sorted(b, key=lambda i: -qlens[i]))
 		plan_.append(("long-first t=%d" % t, order, t, 0))
 	plan_.append(("reversed", full[::-1], min(3, maxthreads), 0))
+	# copies of the first query at the start of other threads' chunks, the
+	# whole list twice, one query many times
+	for t in (2, 3, 4):
+		if t <= maxthreads:
+			plan_.append(("list-twice t=%d" % t, full + full, t, 0))
+			plan_.append(("first-query-interleaved t=%d" % t,
+				[x for q in full[1:t + 2] for x in (0, q)], t, 0))
+	plan_.append(("one-query-repeated", [0] * 7, min(3, maxthreads), 0))
+	plan_.append(("last-query-repeated", [nq - 1] * 5, min(4, maxthreads), 0))
 	for _ in range(params.get("n_perm", 3)):
 		p = full[:]
 		r.shuffle(p)
@@ -247,15 +260,19 @@ def run_case(cls, params, rec):
 		dup = [r.choice(full) for _ in range(r.randint(2, nq + 3))]
 		plan_.append(("dups", dup, r.choice(threads), 0))
 	for (tag, order, t, chunk) in plan_:
-		for poison in (POISONS if have_hook else [None]):
-			if poison is not None and tag.startswith(("perm", "subset")) and \
-				r.random() < 0.5:
-				continue
+		if not have_hook:
+			pl = [None]
+		elif tag.startswith(("full", "long-first", "chunk")):
+			pl = POISONS
+		else:
+			pl = [None, POISONS[2 + len(tag) % 2]]
+		for poison in pl:
 			bad = execute(tag, order, t, chunk, poison)
 			if bad is not None:
 				rec.violation(cls, params, bad[0], mech=bad[1])
 				return
 	# n_nearest
+	nn_base = {}
 	for n in sorted({1, 2, nt // 2 or 1, nt}):
 		kw2 = dict(kw, n_nearest=n)
 		for t, poison in ((1, None), (min(4, maxthreads), POISONS[2]
@@ -274,6 +291,28 @@ def run_case(cls, params, rec):
 					"output shape %s" % (n, val.shape)),
 					mech="C13/n-nearest")
 				return
+			# the n_nearest row of a query is also bit-identical to the one
+			# obtained when the query is processed alone on one thread
+			# (which of several tied targets is returned must not depend on
+			# the schedule either)
+			if n not in nn_base:
+				rows_ = []
+				for q in Qs:
+					st1, v1 = run_tomtom(TT, [q], Ts, kw2, 1)
+					rows_.append(v1[:, 0] if st1 == "ok" else None)
+				nn_base[n] = rows_
+				take_events(TT)
+			for qi in range(nq):
+				b_ = nn_base[n][qi]
+				if b_ is not None and not same_bits(numpy.ascontiguousarray(
+					val[:, qi]), numpy.ascontiguousarray(b_)):
+					rec.violation(cls, params, dict(desc, what="n_nearest=%d "
+						"row of query %d differs from the row obtained when "
+						"the query is processed alone" % (n, qi), n_jobs=t,
+						poison=str(poison), alone=b_.tolist(),
+						in_call=val[:, qi].tolist()),
+						mech="C13/n-nearest-schedule-dependence")
+					return
 			for qi in range(nq):
 				rec.count("nearest_rows_checked")
 				idx = val[5, qi]
@@ -449,7 +488,8 @@ def gen_params(seed, k):
 		32]), "n_t": r.randint(3, 12), "rc": r.random() < 0.6,
 		"n_target_bins": r.choice([None, None, 100, 20]),
 		"n_score_bins": r.choice([10, 25, 50, 100, 100, 200]),
-		"grid": r.choice(["fine", "fine", "coarse"])}
+		"grid": r.choice(["fine", "fine", "coarse"]),
+		"dup_targets": k % 2 == 1}
 
 
 def plan(tier, seed):
